@@ -147,3 +147,14 @@ func vTier() int {
 	}
 	return 0
 }
+
+// Non-branching boolean connectives: the engine builds one term instead of forking.
+func vAnd(a, b bool) bool { return a && b }
+func vOr(a, b bool) bool  { return a || b }
+func vNot(a bool) bool    { return !a }
+func vIte(c bool, a, b int) int {
+	if c {
+		return a
+	}
+	return b
+}
